@@ -254,6 +254,8 @@ def run(check, ctx):
     from .c13_extra import der_writer_rows, pem_roundtrip_rows
     der_writer_rows(check, repo)
     pem_roundtrip_rows(check, repo)
+    from .c13_extra import x509_shape_rows
+    x509_shape_rows(check, repo)
     # PKCS#8 / PBES2 containers round-trip for every protection string (shared with C08)
     from .c08_extra import pbes2_roundtrip_rows
     pbes2_roundtrip_rows(check, repo)
